@@ -170,10 +170,19 @@ func keys(m map[string]bool) []string {
 
 // --- static pre-check: lazily cached fields that a print would write -------------
 
-// nilCaches lists (struct type).Typ fields that are nil in m: each is a write
-// during printing in the model (typ cell not pre-filled).
-func nilCaches(m *ir.Module) (nilFields map[string]int, total int) {
-	nilFields = map[string]int{}
+// A cacheCell is the state of one lazily cached Typ field: which object holds
+// it, the identity of the cached type and what it says.
+type cacheCell struct {
+	owner string  // struct type, e.g. ir.Global
+	ptr   uintptr // 0 = nil
+	text  string
+}
+
+// snapshotCaches records every lazily cached Typ field reachable from m (fields
+// named Typ of structs that have a Type method), keyed by the address of the
+// object that holds it.
+func snapshotCaches(m *ir.Module) map[uintptr]cacheCell {
+	out := map[uintptr]cacheCell{}
 	seen := map[uintptr]bool{}
 	var walk func(v reflect.Value, depth int)
 	walk = func(v reflect.Value, depth int) {
@@ -200,11 +209,23 @@ func nilCaches(m *ir.Module) (nilFields map[string]int, total int) {
 					continue
 				}
 				fv := v.Field(i)
-				if f.Name == "Typ" && hasType && (fv.Kind() == reflect.Ptr || fv.Kind() == reflect.Interface) {
-					total++
-					if fv.IsNil() {
-						nilFields[t.String()+".Typ"]++
+				if f.Name == "Typ" && hasType && v.CanAddr() && (fv.Kind() == reflect.Ptr || fv.Kind() == reflect.Interface) {
+					c := cacheCell{owner: t.String()}
+					if !fv.IsNil() {
+						e := fv
+						if e.Kind() == reflect.Interface {
+							e = e.Elem()
+						}
+						if e.Kind() == reflect.Ptr {
+							c.ptr = e.Pointer()
+						} else {
+							c.ptr = 1
+						}
+						if st, ok := fv.Interface().(fmt.Stringer); ok {
+							mbt.Guard(func() { c.text = st.String() })
+						}
 					}
+					out[v.Addr().Pointer()] = c
 				}
 				walk(fv, depth+1)
 			}
@@ -219,7 +240,83 @@ func nilCaches(m *ir.Module) (nilFields map[string]int, total int) {
 		}
 	}
 	walk(reflect.ValueOf(m), 0)
-	return nilFields, total
+	return out
+}
+
+// changedCaches lists, per owner type, the cells whose cached type was filled,
+// replaced or altered between two snapshots.
+func changedCaches(before, after map[uintptr]cacheCell) map[string]int {
+	out := map[string]int{}
+	for k, a := range after {
+		if b, ok := before[k]; ok && (a.ptr != b.ptr || a.text != b.text) {
+			out[a.owner+".Typ"]++
+		}
+	}
+	return out
+}
+
+// notACache: optional type of a parameter attribute, not a lazily computed cache.
+func notACache(k string) bool {
+	switch k {
+	case "ir.Byval.Typ", "ir.InAlloca.Typ", "ir.Preallocated.Typ", "ir.SRet.Typ", "ir.ByRef.Typ", "ir.ElementType.Typ":
+		return true
+	}
+	return false
+}
+
+// staticCaches is the static pre-check of one module source, on a fresh copy,
+// sequentially: S0 = as built; S1 = after the ID assignment functions, i.e.
+// everything a printer does while it holds Module.mu / Func.mu; S2 = after a
+// complete Module.String. A cache that differs between S1 and S2 was written by
+// the unlocked part of printing: two first prints race on it, whether or not the
+// race detector happens to see it in this run. A cache that differs between S0
+// and S1 was written under the mutex: safe among printers that take the lock.
+func staticCaches(src modSource) (fail map[string]string, underLock map[string]int, total int) {
+	fail = map[string]string{}
+	kind := "constructed"
+	if src.Parsed {
+		kind = "parsed"
+	} else if src.Construction != "" {
+		kind = src.Construction
+	}
+	m := src.Build()
+	s0 := snapshotCaches(m)
+	total = len(s0)
+	if src.Construction != "literal" { // the parser and the constructors pre-compute every cached type
+		nf := map[string]int{}
+		for _, c := range s0 {
+			if c.ptr == 0 && !notACache(c.owner+".Typ") {
+				nf[c.owner+".Typ"]++
+			}
+		}
+		for k, n := range nf {
+			fail["C13|static|nil-cache|"+k+"|"+kind] = fmt.Sprintf("%s: %d %s fields are nil after %s: Type() writes them during the first print", src.Name, n, k, kind)
+		}
+	}
+	if msg, p := mbt.Guard(func() {
+		_ = m.AssignGlobalIDs()
+		_ = m.AssignMetadataIDs()
+		for _, f := range m.Funcs {
+			_ = f.AssignIDs()
+		}
+	}); p {
+		fail["C13|static|panic|"+kind] = src.Name + ": ID assignment panics: " + mbt.Truncate(msg, 200)
+		return
+	}
+	s1 := snapshotCaches(m)
+	if msg, p := mbt.Guard(func() { _ = m.String() }); p {
+		fail["C13|static|panic|"+kind] = src.Name + ": Module.String panics sequentially: " + mbt.Truncate(msg, 200)
+		return
+	}
+	s2 := snapshotCaches(m)
+	underLock = changedCaches(s0, s1)
+	for k, n := range changedCaches(s1, s2) {
+		if notACache(k) {
+			continue
+		}
+		fail["C13|static|cache-written-by-unlocked-print|"+k+"|"+kind] = fmt.Sprintf("%s: a sequential Module.String filled or replaced %d cached %s fields after the ID assignment, i.e. in the part of printing that holds no mutex: the first prints of two goroutines race on them", src.Name, n, k)
+	}
+	return
 }
 
 // --- children -------------------------------------------------------------------
@@ -268,6 +365,9 @@ func scenarios(tier string, seed int64) []scenario {
 	for _, src := range sources(tier) {
 		for _, start := range []string{"never-printed", "already-printed"} {
 			for _, mixName := range []string{"module", "mixed", "func+block"} {
+				if src.ModulePrintersOnly && mixName != "module" {
+					continue
+				}
 				for _, n := range ns {
 					if !src.Unnamed && n != 4 {
 						continue
@@ -374,20 +474,22 @@ func Run(tier, replay string) {
 
 	// static pre-check
 	staticFail := map[string]string{}
+	underLockAll := map[string]int{}
 	for _, src := range sources(tier) {
-		m := src.Build()
-		nf, total := nilCaches(m)
+		fail, underLock, total := staticCaches(src)
 		rep.Count("static:"+src.Name, total > 0)
-		for k, n := range nf {
-			if k == "ir.Byval.Typ" || k == "ir.InAlloca.Typ" || k == "ir.Preallocated.Typ" || k == "ir.SRet.Typ" || k == "ir.ByRef.Typ" || k == "ir.ElementType.Typ" {
-				continue // optional type of a parameter attribute, not a cache
-			}
-			kind := "constructed"
-			if src.Parsed {
-				kind = "parsed"
-			}
-			staticFail["C13|static|nil-cache|"+k+"|"+kind] = fmt.Sprintf("%s: %d %s fields are nil after %s: Type() writes them during the first print, without a lock", src.Name, n, k, kind)
+		for k, v := range fail {
+			staticFail[k] = v
 		}
+		for k, n := range underLock {
+			if !notACache(k) {
+				underLockAll[src.Name+":"+k] += n
+			}
+		}
+	}
+	rep.Extra["caches_written_under_the_lock"] = underLockAll
+	if len(underLockAll) > 0 {
+		rep.Note("lazily cached types written by the ID assignment while it holds the mutex (safe among printers that take the lock; a lock-free reader next to a first print would race on them): %v", underLockAll)
 	}
 	for sig, what := range staticFail {
 		rep.Fail(mbt.Failure{Signature: sig, What: what, Case: map[string]string{"kind": "static"}})
